@@ -27,12 +27,15 @@ def main():
     warnings.simplefilter("ignore")
     import joblib
     kind = spec["kind"]; work = spec["work"]; log = spec.get("log") or os.path.join(work, "exec.log")
-    mems = {st: joblib.Memory(os.path.join(spec["root"], "store%s" % st), verbose=0) for st in spec.get("stores", [1])}
+    # answers go to the real stdout; whatever a verbose Memory prints goes nowhere
+    proto = os.fdopen(os.dup(1), "w"); sys.stdout = open(os.devnull, "w")
+    vb = int(spec.get("verbose", 0))
+    mems = {st: joblib.Memory(os.path.join(spec["root"], "store%s" % st), verbose=vb) for st in spec.get("stores", [1])}
     if spec.get("alias"):
         # these Memory objects are store 1 again, spelled as a relative path
         os.chdir(work)
         for st in spec["alias"]:
-            mems[st] = joblib.Memory(os.path.relpath(os.path.join(spec["root"], "store1"), work), verbose=0)
+            mems[st] = joblib.Memory(os.path.relpath(os.path.join(spec["root"], "store1"), work), verbose=vb)
     objs = {}      # slot -> (function, {store: memorized})
     codes = {}     # version -> code object (for swaps)
     ndef = [0]
@@ -101,7 +104,7 @@ def main():
                 raise ValueError(op)
         except BaseException as e:
             rec["exc"] = type(e).__name__; rec["msg"] = str(e)[:300]
-        sys.stdout.write(json.dumps(rec) + "\n"); sys.stdout.flush()
+        proto.write(json.dumps(rec) + "\n"); proto.flush()
 
 
 if __name__ == "__main__":
